@@ -172,6 +172,26 @@ pub fn oracle(scn: &SenderScn, ctx: &Ctx, trace: &SenderTrace) {
                 }
             }
             ctx.borrow_mut().note("transfers-checked");
+            // 1b. a transfer that has started sends its first packet in the SAME poll (polls drain the sender: whatever
+            // is due - the FDT announcing the object, then its first packet - goes out before 'nothing to send')
+            let poll_of = |seq: u64| trace.polls.iter().rposition(|p| p.seq_begin < seq);
+            if let (Some(ps), Some(fp)) = (poll_of(t.start_seq), t.pkts.first()) {
+                let pf = poll_of(trace.pkts[*fp].seq);
+                let removed_before_first = removal_seq(trace, i).map(|r| r > t.start_seq && r < trace.pkts[*fp].seq).unwrap_or(false);
+                if let Some(pf) = pf {
+                    if pf > ps && trace.polls[ps].drained && !removed_before_first {
+                        violate(
+                            ctx,
+                            "C14/first-packet-late",
+                            "-",
+                            format!(
+                                "toi={} transfer {} starts during poll {} (+{} us), which ends with 'nothing to send', but its first packet only goes out at poll {} (+{} us)",
+                                toi, t.n, ps, trace.polls[ps].t_us.saturating_sub(t0_us()), pf, trace.polls[pf].t_us.saturating_sub(t0_us())
+                            ),
+                        );
+                    }
+                }
+            }
         }
         // 2. carousel gaps at burst boundaries
         if let Some(c) = &o.carousel {
